@@ -418,7 +418,7 @@ func c03Exec(c c03Case) (res c03Run) {
 	if !mailOpen {
 		mailArg = ""
 	}
-	parts = append(parts, fmt.Sprintf("mail=%v(%s) rcpts=%v lib=%v ended=%v", mailOpen, mailArg, txnRcpts, libRcpts, ended))
+	parts = append(parts, fmt.Sprintf("mail=%v(%s) rcpts=%q lib=%q ended=%v", mailOpen, mailArg, txnRcpts, libRcpts, ended))
 	for _, t := range []*mon.Target{ehT1, ehT2} {
 		ds, _ := t.Snapshot()
 		closedC, closedA, failed := 0, 0, 0
@@ -444,7 +444,7 @@ func c03Exec(c c03Case) (res c03Run) {
 			return n
 		}
 		sort.Strings(open)
-		parts = append(parts, fmt.Sprintf("%s:open=%v c=%d a=%d f=%d", t.N, open, capn(closedC), capn(closedA), capn(failed)))
+		parts = append(parts, fmt.Sprintf("%s:open=%q c=%d a=%d f=%d", t.N, open, capn(closedC), capn(closedA), capn(failed)))
 	}
 	// permits held (white-box read through an overlay accessor): hidden state that
 	// must distinguish a leaked permit from a returned one
@@ -547,6 +547,9 @@ func TestVerifC03(t *testing.T) {
 	deepest := 0
 	for wi, w := range c03Worlds(vx.Thorough()) {
 		if !r.Mine(wi) {
+			continue
+		}
+		if f := os.Getenv("VERIF_C03_WORLD"); f != "" && !strings.Contains(vx.JSON(w), f) {
 			continue
 		}
 		alpha := c03Alphabet(w.LMTP)
